@@ -1,4 +1,5 @@
 CONSTANTS GRAPHS <- GraphsT
+NORMALIZE = TRUE
 INIT Init
 NEXT Next
 INVARIANT InvNoPanic
